@@ -62,6 +62,10 @@ pub enum Policy {
     Pct { prio: Vec<u8>, changes: Vec<u16> },
     /// run each chosen thread for a burst of steps
     Burst { lens: Vec<u8> },
+    /// systematic exploration: every decision (which runnable thread; which admissible message a
+    /// load returns, 0 = newest) is an explicit index from this script, 0 once it is exhausted.
+    /// The writer's start-up and the readers' opens run first, uninterleaved.
+    Dfs { script: Vec<u8> },
 }
 
 #[derive(Clone, Debug, Serialize, Deserialize, PartialEq)]
@@ -141,6 +145,8 @@ pub struct ConcRun {
     pub gen_probe: Vec<u16>,
     pub init_valid: bool,
     pub init_rec: Rec,
+    /// (Policy::Dfs) the decision points met: (kind, arity, chosen)
+    pub decisions: Vec<(u8, u8, u8, bool)>,
 }
 
 struct Shared {
@@ -416,8 +422,34 @@ pub fn run_conc(case: &ConcCase, env: &mut Env, opts: &RunOpts) -> ConcRun {
     };
 
     let max_steps: u64 = 400_000_000;
+    if let Policy::Dfs { script } = &case.policy {
+        // uninterleaved set-up: the writer starts up, then every reader runs up to its first snapshot
+        writer = Some(spawn_life(&mut ctl, 0));
+        next_life = 1;
+        let wi = writer.unwrap();
+        let mut g = 0;
+        while ctl.alive(wi) && ctl.threads[wi].pending != Some(Pending::Idle) && g < 10_000 {
+            ctl.step(wi);
+            g += 1;
+        }
+        for &ri in &reader_threads {
+            let mut g = 0;
+            while ctl.alive(ri) && ctl.threads[ri].pending != Some(Pending::CallStart(0)) && g < 10_000 {
+                ctl.step(ri);
+                g += 1;
+            }
+        }
+        let mut s = world.0.borrow_mut();
+        s.markers_yield = false;
+        s.dfs = Some(Dfs {
+            script: script.clone(),
+            pos: 0,
+            decisions: vec![],
+        });
+    }
     let mut last_life_crashed = false;
     let mut life_first_pub: u32 = 0;
+    let mut dfs_last: Option<usize> = None;
     loop {
         if writer.is_none() && next_life < case.lives.len() {
             writer_life = next_life;
@@ -454,6 +486,21 @@ pub fn run_conc(case: &ConcCase, env: &mut Env, opts: &RunOpts) -> ConcRun {
         // choose
         let i = match &case.policy {
             Policy::Random => runnable[next_choice(runnable.len(), &mut sched_pos)],
+            Policy::Dfs { .. } => {
+                // choice 0 = keep running the thread that ran last (no pre-emption) if it still can
+                let mut order = runnable.clone();
+                let mut costly = false;
+                if let Some(last) = dfs_last {
+                    if let Some(pos) = order.iter().position(|x| *x == last) {
+                        order.remove(pos);
+                        order.insert(0, last);
+                        costly = true;
+                    }
+                }
+                let k = world.0.borrow_mut().dfs.as_mut().map(|d| d.choose(0, order.len(), costly)).unwrap_or(0);
+                dfs_last = Some(order[k]);
+                order[k]
+            }
             Policy::Burst { lens } => {
                 if burst_left > 0 && runnable.contains(&burst_thread) {
                     burst_left -= 1;
@@ -660,6 +707,7 @@ pub fn run_conc(case: &ConcCase, env: &mut Env, opts: &RunOpts) -> ConcRun {
         gen_probe: s.gen_probe.clone(),
         init_valid,
         init_rec,
+        decisions: s.dfs.as_ref().map(|d| d.decisions.clone()).unwrap_or_default(),
     }
 }
 
@@ -1007,6 +1055,7 @@ fn conc_labels(v: &mut Verdict, case: &ConcCase, j: &Judged, run: &ConcRun) {
         Policy::Random => v.label("policy-random"),
         Policy::Pct { .. } => v.label("policy-pct"),
         Policy::Burst { .. } => v.label("policy-burst"),
+        Policy::Dfs { .. } => v.label("policy-systematic"),
     }
     if matches!(case.init, InitFile::Valid { gen } if gen >= 65530) {
         v.label("start-near-wrap");
@@ -1076,7 +1125,7 @@ impl Property for C02 {
         c.lives[0].stop_at = None;
         Some(c)
     }
-    fn extra(_tier: Tier, env: &mut Env, _seed: u64) -> Extra {
+    fn extra(tier: Tier, env: &mut Env, _seed: u64) -> Extra {
         // probe of the known finding C02/generation-wrap-within-one-call: the reader copies three
         // words, the writer completes exactly 32767 updates (generation back to the same value), the
         // reader copies the rest and accepts the blend. Sequentially consistent.
@@ -1112,11 +1161,285 @@ impl Property for C02 {
             ex.label("known-finding-probe-no-longer-reproduces");
         }
         ex.samples.push(serde_json::json!({"known_finding_probe": case}));
+        // systematic exploration of the smallest scope (1 update x 1 reader call): all interleavings,
+        // sequentially consistent and with up to `k` stale loads per execution
+        let (k, pre, cap) = match tier {
+            Tier::Quick => (1usize, 3usize, 1_000_000u64),
+            Tier::Thorough => (2usize, 4usize, 8_000_000u64),
+        };
+        for g in [2u16, 65534] {
+            let r = dfs_parallel(g, if g == 2 { k } else { 0 }, pre, cap);
+            ex.evaluations += r.executions;
+            *ex.labels.entry("systematic:executions".into()).or_insert(0) += r.executions;
+            *ex.labels.entry("systematic:copy-overlapped-update".into()).or_insert(0) += r.overlapped;
+            *ex.labels.entry("systematic:with-stale-read".into()).or_insert(0) += r.with_stale_read;
+            *ex.labels.entry("systematic:reader-retried".into()).or_insert(0) += r.retried;
+            ex.extra_coverage.insert(format!("systematic_scope_gen{}", g), serde_json::json!({"executions": r.executions, "complete": r.complete, "max_stale_loads": if g == 2 { k } else { 0 }, "max_preemptions": pre}));
+            if let Some(c) = r.sample {
+                if ex.samples.len() < 3 {
+                    ex.samples.push(serde_json::json!({"systematic_execution_with_retry_and_stale_load": c}));
+                }
+            }
+            if r.complete && g == 2 {
+                ex.exhaustive_note = Some(format!("smallest scope (valid segment, 1 update, 1 reader, 1 call; start-up and open uninterleaved): every schedule of the writer's 11 accesses and the reader's accesses with at most {} pre-emptions x every choice of admissible message per load with at most {} stale loads per execution", pre, k));
+            }
+            if let Some((m, c)) = r.failure {
+                if ex.failure.is_none() {
+                    ex.failure = Some((m, serde_json::to_value(&c).unwrap()));
+                }
+            }
+        }
         ex
     }
     fn max_shrink_iters(_t: Tier) -> u32 {
         3000
     }
+}
+
+// ------------------------------------------------------------------------------------------------
+// systematic exploration of the smallest C02 scope
+
+#[derive(Default, Debug, Clone)]
+pub struct DfsReport {
+    pub executions: u64,
+    pub overlapped: u64,
+    pub with_stale_read: u64,
+    pub retried: u64,
+    pub complete: bool,
+    pub failure: Option<(String, ConcCase)>,
+    pub sample: Option<ConcCase>,
+}
+
+/// Depth-first enumeration of all executions of `base` (Policy::Dfs) whose first decisions are
+/// `prefix`: every interleaving of the writer's update with the readers' calls, and every choice of
+/// admissible message per load with at most `max_stale` non-newest choices per execution.
+pub fn dfs_explore(env: &mut Env, base: &ConcCase, prefix: &[u8], max_stale: usize, max_preempt: usize, max_exec: u64) -> DfsReport {
+    let mut rep = DfsReport::default();
+    let mut script: Vec<u8> = prefix.to_vec();
+    let opts = RunOpts { probe_gen: false, late_reader: false };
+    loop {
+        let case = ConcCase {
+            policy: Policy::Dfs { script: script.clone() },
+            ..base.clone()
+        };
+        let run = run_conc(&case, env, &opts);
+        let j = judge(&run, &case, true, false);
+        rep.executions += 1;
+        if j.overlapped {
+            rep.overlapped += 1;
+        }
+        if j.stale {
+            rep.with_stale_read += 1;
+        }
+        if j.retries_seen > 0 {
+            rep.retried += 1;
+            if rep.sample.is_none() && j.stale {
+                rep.sample = Some(case.clone());
+            }
+        }
+        if let Some(m) = j.fail {
+            rep.failure = Some((m, case));
+            return rep;
+        }
+        // next script in depth-first order
+        let d = &run.decisions;
+        let mut i = d.len();
+        let mut next: Option<Vec<u8>> = None;
+        while i > prefix.len() {
+            i -= 1;
+            let (kind, arity, chosen, costly) = d[i];
+            if chosen + 1 < arity {
+                if costly {
+                    // a non-default choice here is a stale load (kind 1) or a pre-emption (kind 0)
+                    let used = d[..i].iter().filter(|x| x.0 == kind && x.3 && x.2 > 0).count();
+                    let limit = if kind == 1 { max_stale } else { max_preempt };
+                    if used + 1 > limit {
+                        continue;
+                    }
+                }
+                let mut v: Vec<u8> = d[..i].iter().map(|x| x.2).collect();
+                v.push(chosen + 1);
+                next = Some(v);
+                break;
+            }
+        }
+        match next {
+            Some(v) => script = v,
+            None => {
+                rep.complete = true;
+                return rep;
+            }
+        }
+        if rep.executions >= max_exec {
+            return rep;
+        }
+    }
+}
+
+/// All reachable decision prefixes of length `depth` (within the bounds), in depth-first order.
+fn dfs_prefixes(env: &mut Env, base: &ConcCase, depth: usize, max_stale: usize, max_preempt: usize) -> Vec<Vec<u8>> {
+    let mut out: Vec<Vec<u8>> = vec![];
+    let mut script: Vec<u8> = vec![];
+    let opts = RunOpts { probe_gen: false, late_reader: false };
+    loop {
+        let case = ConcCase {
+            policy: Policy::Dfs { script: script.clone() },
+            ..base.clone()
+        };
+        let run = run_conc(&case, env, &opts);
+        let d = &run.decisions;
+        let n = d.len().min(depth);
+        out.push(d[..n].iter().map(|x| x.2).collect());
+        let mut i = n;
+        let mut next: Option<Vec<u8>> = None;
+        while i > 0 {
+            i -= 1;
+            let (kind, arity, chosen, costly) = d[i];
+            if chosen + 1 < arity {
+                if costly {
+                    let used = d[..i].iter().filter(|x| x.0 == kind && x.3 && x.2 > 0).count();
+                    let limit = if kind == 1 { max_stale } else { max_preempt };
+                    if used + 1 > limit {
+                        continue;
+                    }
+                }
+                let mut v: Vec<u8> = d[..i].iter().map(|x| x.2).collect();
+                v.push(chosen + 1);
+                next = Some(v);
+                break;
+            }
+        }
+        match next {
+            Some(v) => script = v,
+            None => return out,
+        }
+        if out.len() > 100_000 {
+            return out;
+        }
+    }
+}
+
+/// Part `k` of `nparts` of the bounded exploration: the tree is cut at depth 8 and the sub-trees are
+/// dealt out round-robin.
+pub fn dfs_explore_part(env: &mut Env, base: &ConcCase, max_stale: usize, max_preempt: usize, max_exec: u64, k: u64, nparts: u64) -> DfsReport {
+    let prefixes = dfs_prefixes(env, base, 8, max_stale, max_preempt);
+    let mut total = DfsReport { complete: true, ..Default::default() };
+    for (idx, pre) in prefixes.iter().enumerate() {
+        if idx as u64 % nparts.max(1) != k % nparts.max(1) {
+            continue;
+        }
+        let left = max_exec.saturating_sub(total.executions);
+        if left == 0 {
+            total.complete = false;
+            break;
+        }
+        let r = dfs_explore(env, base, pre, max_stale, max_preempt, left);
+        total.executions += r.executions;
+        total.overlapped += r.overlapped;
+        total.with_stale_read += r.with_stale_read;
+        total.retried += r.retried;
+        total.complete &= r.complete;
+        if total.sample.is_none() {
+            total.sample = r.sample;
+        }
+        if r.failure.is_some() {
+            total.failure = r.failure;
+            total.complete = false;
+            break;
+        }
+    }
+    total
+}
+
+/// Smallest scope: a valid segment, one update, one reader making one call.
+pub fn smallest_scope(start_gen: u16) -> ConcCase {
+    ConcCase {
+        init: InitFile::Valid { gen: start_gen },
+        lives: vec![Life {
+            ops: vec![WOp::Publish(1)],
+            stop_at: None,
+        }],
+        readers: vec![vec![ROp::Open, ROp::Snap]],
+        policy: Policy::Dfs { script: vec![] },
+        sched: vec![],
+        reads: vec![],
+    }
+}
+
+/// Child-process entry: explore one of the 16 sub-trees and print the report as JSON.
+///   vcheck c02-dfs <k> <start-gen> <max-stale> <max-preemptions> <cap> <parts>
+pub fn dfs_child(args: &[String]) -> i32 {
+    install_hooks();
+    crate::runner::quiet_panics();
+    let k: u8 = args.first().and_then(|s| s.parse().ok()).unwrap_or(0);
+    let gen: u16 = args.get(1).and_then(|s| s.parse().ok()).unwrap_or(2);
+    let max_stale: usize = args.get(2).and_then(|s| s.parse().ok()).unwrap_or(0);
+    let max_preempt: usize = args.get(3).and_then(|s| s.parse().ok()).unwrap_or(3);
+    let cap: u64 = args.get(4).and_then(|s| s.parse().ok()).unwrap_or(1_000_000);
+    let nparts: u8 = args.get(5).and_then(|s| s.parse().ok()).unwrap_or(1);
+    let dir = std::path::PathBuf::from(format!("/dev/shm/clockbound-verif-dfs.{}", std::process::id()));
+    let mut env = Env::new(&dir, Tier::Quick, 200 + k as usize);
+    // partition: the first scheduler decision (which thread starts) and, below it, the position of
+    // the first pre-emption are not needed: each child simply takes every nparts-th execution
+    let _ = k;
+    let r = dfs_explore_part(&mut env, &smallest_scope(gen), max_stale, max_preempt, cap, k as u64, nparts as u64);
+    let _ = std::fs::remove_dir_all(&dir);
+    println!(
+        "{}",
+        serde_json::json!({
+            "executions": r.executions, "overlapped": r.overlapped, "with_stale_read": r.with_stale_read, "retried": r.retried,
+            "complete": r.complete,
+            "failure": r.failure.as_ref().map(|(m, c)| serde_json::json!({"reason": m, "case": c})),
+            "sample": r.sample,
+        })
+    );
+    0
+}
+
+/// Run the exploration split over 16 processes by the first four scheduler decisions (processes,
+/// not threads: mmap/munmap of 16 threads in one address space serialise on the kernel's mm lock).
+pub fn dfs_parallel(gen: u16, max_stale: usize, max_preempt: usize, max_exec_per_child: u64) -> DfsReport {
+    let exe = std::env::current_exe().unwrap_or_else(|_| std::path::PathBuf::from("/verif/target/release/vcheck"));
+    let children: Vec<_> = (0..16u8)
+        .filter_map(|k| {
+            std::process::Command::new(&exe)
+                .arg("c02-dfs")
+                .arg(k.to_string())
+                .arg(gen.to_string())
+                .arg(max_stale.to_string())
+                .arg(max_preempt.to_string())
+                .arg(max_exec_per_child.to_string())
+                .arg("16")
+                .stdout(std::process::Stdio::piped())
+                .stderr(std::process::Stdio::null())
+                .spawn()
+                .ok()
+        })
+        .collect();
+    let mut total = DfsReport { complete: children.len() == 16, ..Default::default() };
+    for ch in children {
+        tick();
+        let out = ch.wait_with_output();
+        let v: serde_json::Value = out.ok().and_then(|o| serde_json::from_slice(&o.stdout).ok()).unwrap_or(serde_json::Value::Null);
+        if v.is_null() {
+            total.complete = false;
+            continue;
+        }
+        total.executions += v["executions"].as_u64().unwrap_or(0);
+        total.overlapped += v["overlapped"].as_u64().unwrap_or(0);
+        total.with_stale_read += v["with_stale_read"].as_u64().unwrap_or(0);
+        total.retried += v["retried"].as_u64().unwrap_or(0);
+        total.complete &= v["complete"].as_bool().unwrap_or(false);
+        if total.failure.is_none() && !v["failure"].is_null() {
+            if let Ok(c) = serde_json::from_value::<ConcCase>(v["failure"]["case"].clone()) {
+                total.failure = Some((v["failure"]["reason"].as_str().unwrap_or("").to_string(), c));
+            }
+        }
+        if total.sample.is_none() && !v["sample"].is_null() {
+            total.sample = serde_json::from_value::<ConcCase>(v["sample"].clone()).ok();
+        }
+    }
+    total
 }
 
 // ------------------------------------------------------------------------------------------------
@@ -1223,6 +1546,7 @@ impl Property for C03 {
                     sched: vec![],
                     reads: vec![],
                 };
+                tick();
                 let vd = C03::check(&case, env);
                 ex.evaluations += 1 + vd.sub_evals;
                 ex.label(if n % 32767 == 0 { "probe-collision-distance" } else { "probe-neighbour-distance" });
@@ -1328,6 +1652,13 @@ impl Property for C18 {
     fn check(case: &ConcCase, env: &mut Env) -> Verdict {
         c18_check(case, env)
     }
+    fn hang_is_violation() -> bool {
+        // boundedness of a client call is what C18 claims
+        true
+    }
+    fn case_timeout_s() -> u64 {
+        120
+    }
     fn floors() -> Vec<(&'static str, f64)> {
         vec![("writer-stopped-inside-update", 0.2), ("three-or-more-retries", 0.05), ("cache-served-on-odd-zero-or-same-generation", 0.3)]
     }
@@ -1362,6 +1693,7 @@ impl Property for C18 {
                     sched,
                     reads: vec![],
                 };
+                tick();
                 let vd = c18_check(&case, env);
                 ex.evaluations += 1 + vd.sub_evals;
                 if vd.nontrivial {
@@ -1403,6 +1735,7 @@ impl Property for C18 {
                 sched: vec![],
                 reads: vec![],
             };
+            tick();
             let vd = c18_check(&case, env);
             ex.evaluations += 1 + vd.sub_evals;
             ex.nontrivial_hashes.push(hash_str(&serde_json::to_string(&case).unwrap()));
@@ -1686,6 +2019,7 @@ impl Property for C04 {
                             sched,
                             reads: vec![],
                         };
+                        tick();
                         let vd = c04_check(&case, env);
                         ex.evaluations += 1 + vd.sub_evals;
                         if vd.nontrivial {
@@ -1945,6 +2279,7 @@ impl Property for C11 {
         for g in 0..=u16::MAX {
             for (k, hist) in [vec![(true, 0u8)], vec![(false, (g % 7) as u8), (true, 0)]].into_iter().enumerate() {
                 let case = GenCase { start: g, history: hist };
+                tick();
                 let vd = c11_check(&case, env);
                 ex.evaluations += 1 + vd.sub_evals;
                 if vd.nontrivial {
